@@ -391,8 +391,8 @@ func (o OrderedCollection) Equals(with Item) bool {
 	}
 	result := true
 	err := OnOrderedCollection(with, func(w *OrderedCollection) error {
-		_ = OnCollection(w, func(wo *Collection) error {
-			if !wo.Equals(o) {
+		_ = OnCollection(o, func(co *Collection) error {
+			if !co.Equals(w) {
 				result = false
 				return nil
 			}
